@@ -107,7 +107,7 @@ class BlockSmoothConvexFunction(Function):
                 if xj_id is None:
                     xj_id = "Point_{}".format(j)
 
-                if point_i == point_j:
+                if point_i is point_j:
                     for k in range(self.partition.get_nb_blocks()):
                         tables_of_constraints[k][i].append(0)
 
